@@ -328,7 +328,11 @@ def r3_string_headers(ctx):
                     if run.binary:
                         d = run.data
                         ok = d is not None and len(d.items) == 1 and d.items[0].code == "d"
-                        ctx.check(ok, f"{tag}: the column's values are packed as doubles", d.node if d is not None else run.colhdr.node)
+                        if d is None:
+                            # no block of values found among the records (values packed one by one, or in a way the cutter does not see): not decided
+                            ctx.error(f"{tag}: the block of packed values of a column", run.colhdr.node, repr(getattr(run, "items", None))[:300])
+                            continue
+                        ctx.check(ok, f"{tag}: the column's values are packed as doubles", d.node, None if ok else repr(d.items)[:200])
                         if not ok:
                             continue
                         nreal = d.items[0].count
@@ -398,7 +402,10 @@ def r3_string_headers(ctx):
                     if run.binary:
                         d = run.data
                         ok = d is not None and len(d.items) == 1 and d.items[0].code == "d"
-                        ctx.check(ok, f"{tag}: the string's values are packed as doubles", d.node if d is not None else run.strhdr.node)
+                        if d is None:
+                            ctx.error(f"{tag}: the block of packed values of a string", run.strhdr.node, repr(getattr(run, "items", None))[:300])
+                            continue
+                        ctx.check(ok, f"{tag}: the string's values are packed as doubles", d.node, None if ok else repr(d.items)[:200])
                         if not ok:
                             continue
                         judge(ctx, d.items[0].count, r1 * mult, f"{tag}: length * multiplier doubles are packed per string (the L // 2 the header announces)", d.node)
@@ -670,8 +677,13 @@ def r4_ranges_and_dispatch(ctx):
                   key=f"C04-R4|{q}|bigmat boundary")
     ctx.scope()
     ok = origins >= {"writer", "loader", "skipper"}
-    ctx.check(ok, "bigmat boundary rule bound to comparisons on the writer, the loader and the skipper side", OP4 + ":1",
-              None if ok else {"comparisons": nsite, "sides": sorted(origins)}, nontrivial=False)
+    if ok:
+        ctx.ok("bigmat boundary rule bound to comparisons on the writer, the loader and the skipper side", OP4 + ":1", nontrivial=False)
+    else:
+        # a side on which no comparison with the limit was met: the rule did not bind there (an evaluation that went astray, or a layout test
+        # spelled in a way the rule does not recognise) - not decided, never a violation
+        ctx.error("bigmat boundary rule bound to comparisons on the writer, the loader and the skipper side", OP4 + ":1",
+                  {"comparisons": nsite, "sides": sorted(origins)})
     # packed ranges: IS into the struct code it is packed with
     worst = None
     code = None
@@ -733,6 +745,9 @@ def r4_ranges_and_dispatch(ctx):
             except S.NeedSplit as e:
                 res[label] = ("undecided", str(e), [])
         ctx.scope(*lim_worlds)
+        if any(v[0] == "undecided" for v in res.values()):
+            ctx.error(f"{enc} writers: dimension limits (a comparison of the dimensions is not decided at the limit)", gi, res)
+            continue
         ok = res["rows above the limit"][0] is True and res["cols above the limit"][0] is True and res["rows above the limit"][1] == 0 and res["cols above the limit"][1] == 0
         ctx.check(ok, f"{enc} writers: dimensions above ({rmax}, {cmax}) do not fit the {'8/16-digit header fields' if enc == 'ascii' else '32-bit header fields'} "
                       "and are refused before anything is written", gi, None if ok else res)
@@ -791,8 +806,11 @@ def r7_input_canonical(ctx):
                     for x, y in ((a, b), (b, a)):
                         ux = unfn(x)
                         if ux and ux[0] == "attr:dtype" and sym_name(y) in (DOUBLE | CDOUBLE | NARROW):
-                            # a dtype name the rule knows: equal to the input's dtype only if it names the double-precision type of the scenario
+                            # a dtype name the rule knows.  Input that already is double precision: equal exactly to the names of its own type.
+                            # Input that is not: different from both double-precision types, and possibly equal to any other one (not decided)
                             is_t = sym_name(y) in (CDOUBLE if cplx else DOUBLE)
+                            if not already and sym_name(y) in NARROW:
+                                return None
                             eq = already and is_t
                             return eq if u[0] == "cmp:Eq" else not eq
                 return None
@@ -1343,8 +1361,11 @@ def r9_no_byte_reinterpretation(ctx):
                 ctx.fail("binary loaders never reinterpret the bytes of values read in the file's byte order", c,
                          f"{nm}: {bad}: `{ast.unparse(c)[:100]}` (non-native files decode to garbage of the right shape)",
                          key=f"C04-R9|{nm}|{ast.unparse(c.func)[:40]}")
-    ctx.check(len(seen) >= 8, f"byte-reinterpretation rule scanned {len(seen)} functions reachable from _loadop4_binary", meth.get("_loadop4_binary"), sorted(seen),
-              nontrivial=False)
+    # binding of the rule itself (how many functions a loader is split into is the code's business): too few is "not bound", never a violation
+    if len(seen) >= 3 and "_loadop4_binary" in seen:
+        ctx.ok(f"byte-reinterpretation rule scanned {len(seen)} functions reachable from _loadop4_binary", meth.get("_loadop4_binary"), sorted(seen), nontrivial=False)
+    else:
+        ctx.error("byte-reinterpretation rule: functions reachable from _loadop4_binary", meth.get("_loadop4_binary"), sorted(seen))
     if not n:
         ctx.ok("binary loaders never reinterpret the bytes of values read in the file's byte order (no .view(dtype) / byteswap / frombuffer on the way "
                "into the matrix)", meth.get("_loadop4_binary"))
